@@ -7,12 +7,14 @@ import (
 	"os"
 	"path/filepath"
 	"reflect"
+	"sort"
 	"strings"
 
 	"github.com/rkosegi/yaml-toolkit/common"
 	"github.com/rkosegi/yaml-toolkit/diff"
 	"github.com/rkosegi/yaml-toolkit/dom"
 	"github.com/rkosegi/yaml-toolkit/pipeline"
+	"github.com/rkosegi/yaml-toolkit/utils"
 	"gopkg.in/yaml.v3"
 )
 
@@ -140,4 +142,154 @@ func c18MergeFiles(r *rand.Rand, idx int, docs []map[string]any) Case {
 		fail = append(fail, fmt.Sprintf("mergeFiles rendered %s, the ordered append-merge of the files is %s", got, wb.String()))
 	}
 	return Case{Kind: "mergeFiles", Desc: map[string]any{"docs": docs, "rendered": got}, Fail: fail, Nontrivial: len(docs) >= 2, Key: "mergeFiles" + got + fmt.Sprint(idx)}
+}
+
+// ---- the remaining template functions are thin wrappers of library functions the properties speak about (or of the Go
+// standard library): a template that calls one of them renders what the wrapped function gives
+func c13TemplateFuncs(r *rand.Rand, idx int) Case {
+	var fail []string
+	dir := filepath.Join(procTmp("tmplfuncs"), fmt.Sprintf("tf%d", idx))
+	_ = os.MkdirAll(filepath.Join(dir, "sub"), 0o755)
+	defer os.RemoveAll(dir)
+	_ = os.WriteFile(filepath.Join(dir, "a.yaml"), []byte("a: 1\n"), 0o644)
+	_ = os.WriteFile(filepath.Join(dir, "b.yaml"), []byte("b: 2\n"), 0o644)
+	o := defaultOpts()
+	o.keys = c03Keys
+	o.maxDepth = 3
+	o.floats = false
+	doc := genDoc(r, o)
+	flat := map[string]any{}
+	for _, k := range []string{"app.name", "app.port", "db.url", "plain", "x.y.z"} {
+		if r.Intn(2) == 0 {
+			flat[k] = c16Vals[r.Intn(len(c16Vals))]
+		}
+	}
+	render := func(t string, data map[string]any) string {
+		var out string
+		var err error
+		if pn := guard(func() { out, err = tmplEngine().Render(t, data) }); pn != "" {
+			fail = append(fail, "panic while rendering "+t+": "+pn)
+		} else if err != nil {
+			fail = append(fail, "rendering "+t+" failed: "+err.Error())
+		}
+		return out
+	}
+	c := anyToContainer(doc)
+	data := map[string]any{"doc": c, "plain": doc, "flat": flat, "dir": dir, "empty": "", "nothing": nil, "text": "x"}
+	// dom2yaml / dom2properties / toYaml: the text decodes to the document
+	var back map[string]any
+	if err := yaml.Unmarshal([]byte(render("{{ dom2yaml .doc }}", data)), &back); err != nil || !reflect.DeepEqual(normGeneric(back), normGeneric(doc)) {
+		if !(len(doc) == 0 && len(back) == 0) {
+			fail = append(fail, fmt.Sprintf("dom2yaml of %v decodes to %v (%v)", doc, back, err))
+		}
+	}
+	back = nil
+	if err := yaml.Unmarshal([]byte(render("{{ toYaml .plain }}", data)), &back); err != nil || !reflect.DeepEqual(normGeneric(back), normGeneric(doc)) {
+		if !(len(doc) == 0 && len(back) == 0) {
+			fail = append(fail, fmt.Sprintf("toYaml of %v decodes to %v (%v)", doc, back, err))
+		}
+	}
+	var wantP bytes.Buffer
+	fc := dom.Builder().Container()
+	for k, v := range flat {
+		fc.AddValue(k, dom.LeafNode(v))
+	}
+	_ = fc.Serialize(&wantP, dom.DefaultNodeEncoderFn, common.DefaultFileEncoderProvider("x.properties"))
+	sortedLines := func(t string) string {
+		ls := strings.Split(strings.TrimSuffix(t, "\n"), "\n")
+		sort.Strings(ls)
+		return strings.Join(ls, "\n")
+	}
+	// (the properties encoder writes the pairs in map order: compared as sets of lines)
+	if got := render("{{ dom2properties .fc }}", map[string]any{"fc": fc}); sortedLines(got) != sortedLines(wantP.String()) {
+		fail = append(fail, fmt.Sprintf("dom2properties renders %q, the properties encoder writes %q", got, wantP.String()))
+	}
+	// unflatten = utils.Unflatten
+	wantU, _ := yaml.Marshal(utils.Unflatten(flat))
+	var gu, wu any
+	_ = yaml.Unmarshal([]byte(render("{{ toYaml (unflatten .flat) }}", data)), &gu)
+	_ = yaml.Unmarshal(wantU, &wu)
+	if !reflect.DeepEqual(gu, wu) {
+		fail = append(fail, fmt.Sprintf("unflatten of %v renders %v, utils.Unflatten gives %v", flat, gu, wu))
+	}
+	// isEmpty, fileExists, isDir, glob, fileGlob, urlParseQuery, tpl
+	for t, want := range map[string]string{
+		"{{ isEmpty .empty }}/{{ isEmpty .nothing }}/{{ isEmpty .text }}/{{ isEmpty .flat }}":                       "true/true/false/false",
+		`{{ fileExists (printf "%s/a.yaml" .dir) }}/{{ fileExists (printf "%s/none" .dir) }}/{{ fileExists .dir }}`: "true/false/true",
+		`{{ isDir .dir }}/{{ isDir (printf "%s/a.yaml" .dir) }}/{{ isDir (printf "%s/none" .dir) }}`:                "true/false/false",
+		`{{ len (glob (printf "%s/*.yaml" .dir)) }}/{{ len (fileGlob (printf "%s/*" .dir)) }}`:                      "2/3",
+		`{{ index (glob (printf "%s/*.yaml" .dir)) 1 | base }}`:                                                     "b.yaml",
+		`{{ (urlParseQuery "a=1&b=x%20y&a=2").Get "b" }}/{{ index (urlParseQuery "a=1&a=2") "a" | len }}`:           "x y/2",
+		`{{ tpl "<{{ .text }}>" . }}`: "<x>",
+	} {
+		if got := render(t, data); got != want {
+			fail = append(fail, fmt.Sprintf("%s renders %q, expected %q", t, got, want))
+		}
+	}
+	return Case{Kind: "template-funcs", Desc: map[string]any{"doc": doc, "flat": flat}, Fail: fail, Nontrivial: len(doc) > 0 && len(flat) > 0, Key: fmt.Sprint("tf", idx)}
+}
+
+// templateFile: template text from a file, rendered against the data (or the mapping at a path), written to a file
+func c13TemplateFile(r *rand.Rand, idx int) Case {
+	dir := filepath.Join(procTmp("tmplfuncs"), fmt.Sprintf("tfile%d", idx))
+	_ = os.MkdirAll(dir, 0o755)
+	defer os.RemoveAll(dir)
+	data := map[string]any{"name": "n", "port": 80, "flag": true, "nested": map[string]any{"name": "inner", "x": 1}, "l": []any{"i0"}, "outname": "o"}
+	parts := []tpart{}
+	for i, n := 0, 1+r.Intn(4); i < n; i++ {
+		if r.Intn(2) == 0 {
+			parts = append(parts, tpart{Lit: []string{"a", " b\n", "x=", "-"}[r.Intn(4)]})
+		} else {
+			parts = append(parts, tpart{Var: []string{"name", "port", "flag", "missing", "x"}[r.Intn(5)]})
+		}
+	}
+	tf := filepath.Join(dir, "t.tpl")
+	haveTmpl := r.Intn(6) != 0
+	if haveTmpl {
+		_ = os.WriteFile(tf, []byte(tmplString(parts)), 0o644)
+	}
+	out := filepath.Join(dir, "out.txt")
+	op := &pipeline.TemplateFileOp{File: tf, Output: out}
+	coqFile, coqOut := tf, out
+	switch r.Intn(8) {
+	case 0:
+		op.File, coqFile = "", ""
+	case 1:
+		op.Output, coqOut = "", ""
+	case 2: // the names are templates themselves
+		op.Output = filepath.Join(dir, "{{ .outname }}ut.txt")
+	}
+	coqPath := "None"
+	if r.Intn(2) == 0 {
+		p := []string{"nested", "name", "ghost", "l", "nested.x", ""}[r.Intn(6)]
+		op.Path = &p
+		coqPath = "(Some " + gStr(p) + ")"
+	}
+	// an output file left by an earlier run is replaced as a whole
+	_ = os.WriteFile(out, []byte(strings.Repeat("stale output of an earlier, longer run\n", 20)), 0o644)
+	d := anyToContainer(data)
+	var err error
+	var fail []string
+	if pn := guard(func() { err = pipeline.New(pipeline.WithData(d)).Execute(op) }); pn != "" {
+		fail = append(fail, "panic in TemplateFileOp: "+pn)
+	}
+	after := nodeToAny(d)
+	if !reflect.DeepEqual(after, any(data)) {
+		fail = append(fail, "templateFile changed the data document")
+	}
+	obs := "None"
+	if err == nil {
+		bs, rerr := os.ReadFile(out)
+		if rerr != nil {
+			fail = append(fail, "templateFile succeeded but the output file cannot be read: "+rerr.Error())
+		}
+		obs = "(Some " + gStr(string(bs)) + ")"
+	}
+	coqT := "None"
+	if haveTmpl {
+		coqT = "(Some " + gTmpl(parts) + ")"
+	}
+	return Case{Kind: "template-file", Desc: map[string]any{"template": tmplString(parts), "have_template": haveTmpl, "file": op.File, "output": op.Output, "path": coqPath, "err": fmt.Sprint(err)},
+		Coq:  "CTemplateFile " + coqT + " " + gStr(coqFile) + " " + gStr(coqOut) + " " + coqPath + " " + gNode(data) + " " + obs + " " + gNode(after),
+		Fail: fail, Nontrivial: err == nil && len(parts) >= 2}
 }
